@@ -1,4 +1,5 @@
-/-! Driver executable for family `explorer` — placeholder until the family is built. -/
+import Whv.Driver.Explorer
+/-! Driver executable for family `explorer` (C19): case lines on stdin, verdict lines on stdout. -/
 def main : IO UInt32 := do
-  IO.eprintln "family not built"
-  return 2
+  Whv.Driver.ExplorerFam.run (← IO.getStdin)
+  return 0
